@@ -34,6 +34,11 @@ ThreeB == S(<<E(<<T(2, 1, Eternal), CP(1, 2, 1)>>, 0), E(<<T(3, 3, 1)>>, 0)>>, <
 CapBig == S(<<E(<<T(1, 1, 1), T(2, 1, 1)>>, 3), E(<<T(3, 1, 1)>>, 0)>>, <<1, 2, 2>>, 2)
 \* three workers
 W3 == S(<<E(<<CP(1, 1, 1), T(2, 2, Eternal)>>, 0), E(<<T(3, 3, 1)>>, 0)>>, <<1, 2, 3>>, 3)
+\* the named task's two clients sit on DIFFERENT workers, an eternal task on a third: the first join point message of the
+\* step comes from a worker that hosts only a part of the named task
+W3Split == S(<<E(<<CP(1, 2, 1), T(2, 1, Eternal)>>, 0), E(<<T(3, 3, 1)>>, 0)>>, <<>>, 3)
+\* ... and a short plain task on a third worker reaches the join point before the named task is done
+W3Early == S(<<E(<<T(1, 1, 1), CP(2, 1, 2), T(3, 1, Eternal)>>, 0)>>, <<>>, 3)
 W3Any == S(<<E(<<ACP(1, 1, 1), ACP(2, 1, 2), ACP(3, 1, 2)>>, 0), E(<<T(4, 2, 1)>>, 0)>>, <<1, 2, 3>>, 3)
 
 NoFaults == {"none"}
@@ -50,5 +55,5 @@ FaultSimScenarios == {Seq2, Named2, Tiny2, Over2, Three, OverPlain1, OverPlain2,
 FaultScenarios == {Seq2, Named2, OverPlain1}
 C07QuickScenarios == {Seq2, Named2, Any2, Over2, OverPlain1, OverPlain2, Timed2}
 C07Scenarios == {Seq2, Named2, Over2, OverPlain1}
-ThoroughScenarios == QuickScenarios \cup {ThreeB, W3, W3Any}
+ThoroughScenarios == QuickScenarios \cup {ThreeB, W3, W3Any, W3Split, W3Early}
 ====
